@@ -106,18 +106,28 @@ while done < n and attempts < 6 * n:
     else:
         t0 = time.time()
         env = dict(ENV, VERIF_REPO=WT, VERIF_ESCALATION_BUDGET_S="60")
-        try:
-            p = subprocess.run(["timeout", "-k", "10", "1200", "./check", pid], cwd=ROOT, env=env, stdout=subprocess.PIPE, stderr=subprocess.STDOUT, timeout=1300)
-            o = p.stdout.decode("utf-8", "replace")
-            rc_ = p.returncode
-        except subprocess.TimeoutExpired:
-            o, rc_ = "", 124
-        subprocess.run(["pkill", "-f", f"verif-alt-.*{pid.lower()}"], stderr=subprocess.DEVNULL)
-        # a mutant that makes the real code loop forever hangs the harness: the check would report a broken
-        # correspondence run after its own (long) timeout; counted as killed(hang)
-        rec["result"] = "killed" if rc_ == 1 else ("survived" if rc_ == 0 else ("killed(hang)" if rc_ in (124, 137) else f"rc{rc_}"))
-        v = [l for l in o.splitlines() if l.startswith("VIOLATION") or l.startswith("  ")]
-        rec["violation"] = " | ".join(v[:2])[:400]
+        # the file may be anchored in several properties and the mutated function belong to only one of them:
+        # run the chosen property's check first, then the other properties anchoring this file, until one kills
+        owners = [pid] + [q for q in sorted(P) if q != pid and rel in P[q]["anchors"]["files"]]
+        rec["tried"] = []
+        rec["result"] = "survived"
+        for q in owners[:5]:
+            try:
+                pr = subprocess.run(["timeout", "-k", "10", "1200", "./check", q], cwd=ROOT, env=env, stdout=subprocess.PIPE, stderr=subprocess.STDOUT, timeout=1300)
+                o, rc_ = pr.stdout.decode("utf-8", "replace"), pr.returncode
+            except subprocess.TimeoutExpired:
+                o, rc_ = "", 124
+            rec["tried"].append([q, rc_])
+            if rc_ in (1, 124, 137):
+                # a mutant that makes the real code loop forever hangs the harness: counted as killed(hang)
+                rec["result"] = "killed" if rc_ == 1 else "killed(hang)"
+                rec["killed_by"] = q
+                v = [l for l in o.splitlines() if l.startswith("VIOLATION") or l.startswith("  ")]
+                rec["violation"] = " | ".join(v[:2])[:400]
+                break
+        # a hung harness binary of this lane (child of a timed-out check) must not linger
+        alt = "/tmp/verif-alt-" + hashlib.sha1(WT.encode()).hexdigest()[:8] + "/"
+        subprocess.run(["pkill", "-9", "-f", alt], stderr=subprocess.DEVNULL)
         rec["secs"] = round(time.time() - t0, 1)
         done += 1
     with open(OUT, "a") as f:
